@@ -480,3 +480,103 @@ def c17_ble_cases(draw):
 
 
 C17_BLE_LAYERS = [Layer("ble-api", run_c17_ble, strategy=c17_ble_cases, n={"quick": 300, "thorough": 8000})]
+
+
+# ---------------------------------------------------------------- C04: add-/remove-pairing replies on IP (same cells as BLE)
+def run_c04_ip(case, R):
+    from vlib.ipworld import IpWorld
+    from vlib.refhap import tlv_enc
+    op, state, err = case["op"], case["state"], case["err"]
+    if state not in ("absent", "expected") and int(state) == 2:
+        state = "expected"
+    error_present = PAIRING_ERRORS[err] is not None
+    control = not error_present and state in ("absent", "expected")
+    R.nt(not control)
+    R.cls("ip-pairings:" + op, "control" if control else "error-cell")
+
+    async def main(loop):
+        w = IpWorld(loop)
+        reply = pairing_reply(state, err, case.get("extra"), case.get("order", "spec"))
+
+        def hook(conn, req):
+            if req.target == "/pairings":
+                conn.send_http(case.get("http", 200), "OK", tlv_enc(reply), ctype="application/pairing+tlv8")
+                return True
+            return False
+        w.acc.on_request = hook
+        try:
+            p = w.pairing
+            what = f"IP {op} state={state} error={err} extra={case.get('extra')} order={case.get('order')} http={case.get('http', 200)}"
+            try:
+                if op == "add":
+                    res = await p.add_pairing("other-controller", "07" * 32, "User")
+                else:
+                    res = await p.remove_pairing("other-controller")
+                outcome = ("ok", res)
+            except Exception as e:  # noqa: BLE001
+                outcome = ("raise", e)
+            if control:
+                if outcome != ("ok", True):
+                    R.fail("C04.control-cell-fails", f"{what}: {outcome!r:.200}", step="ip-" + op)
+            elif outcome[0] == "ok":
+                R.fail("C04.error-reply-succeeds", f"{what}: reported as done ({outcome[1]!r})", step="ip-" + op, state="absent" if state == "absent" else ("expected" if state == "expected" else "wrong"))
+            elif not isinstance(outcome[1], X.HomeKitException):
+                R.fail("C04.wrong-exception-class", f"{what}: raised {type(outcome[1]).__name__}: {outcome[1]}, not a library error", step="ip-" + op, state=state, decode="ip")
+            elif op == "add" and state in ("absent", "expected"):
+                want = {"2": X.AuthenticationError, "3": X.BackoffError, "4": X.MaxPeersError, "5": X.MaxTriesError, "6": X.UnavailableError, "7": X.BusyError}.get(err, X.InvalidError)
+                if type(outcome[1]) is not want:
+                    R.fail("C04.wrong-exception-class", f"{what}: raised {type(outcome[1]).__name__}, documented class is {want.__name__}", step="ip-add", state=state, decode="ip")
+            await p.shutdown()
+        finally:
+            w.restore()
+    vtime.run(main)
+
+
+def enum_c04_ip(tier):
+    for c in enum_c04_ble(tier):
+        yield c
+        if c["err"] in ("2", "6") and c["state"] == "expected" and not c["extra"]:
+            yield dict(c, http=470)
+
+
+C04_IP_LAYERS = [Layer("ip-pairings", run_c04_ip, enumerate=enum_c04_ip, exhaustive=True,
+                       space="add/remove x 9 states x 13 errors x other fields present/absent x 2 orders (+ HTTP 470 variants)", min_nontrivial=800)]
+
+
+# ---------------------------------------------------------------- C01: pair-verify through the IP connection
+def run_c01_ip(case, R):
+    from vlib.ipworld import IpWorld
+    policy = case["policy"]
+    R.nt(policy != "ok")
+    R.cls("transport:ip", "fault:" + policy)
+
+    async def main(loop):
+        w = IpWorld(loop, k=case.get("k", 0), hosts=(case.get("host", "10.0.0.5"),))
+        w.acc.verify_policy = lambda conn: policy
+        w.acc.frame_sizes = case.get("sizes") or [1024]
+        try:
+            p = w.pairing
+            t = asyncio.ensure_future(p.get_characteristics([(1, 9)]))
+            await asyncio.sleep(15)
+            await vtime.settle(loop)
+            what = f"IP verify policy={policy}"
+            if policy == "ok":
+                if not t.done() or t.exception() or t.result() != {(1, 9): {"value": False}}:
+                    R.fail("C01.honest-rejected", f"{what}: request {t!r:.200}", exc="request")
+                elif any(c.frame_errors or c.errors for c in w.acc.conns):
+                    R.fail("C01.keys-differ", f"{what}: the reference accessory could not decrypt/parse: {[c.frame_errors + c.errors for c in w.acc.conns]}", resumed=False)
+            else:
+                if p.is_connected or any(c.secure for c in w.acc.conns) and policy not in ("error-m4:2",):
+                    R.fail("C01.forged-reply-accepted", f"{what}: connected={p.is_connected}", family="ip-" + policy)
+                elif t.done() and not t.cancelled() and t.exception() is None:
+                    R.fail("C01.forged-reply-accepted", f"{what}: the request succeeded", family="ip-" + policy)
+            t.cancel()
+            await p.shutdown()
+        finally:
+            w.restore()
+    vtime.run(main)
+
+
+C01_IP_LAYERS = [Layer("ip-transport", run_c01_ip, enumerate=lambda tier: ({"policy": pol, "k": k, "host": h, "sizes": s} for pol in ("ok", "bad-sig", "wrong-id", "bad-tag", "error-m2:2", "error-m4:2", "garbage-m2")
+                                                                         for k in range(2 if tier == "quick" else 20) for h, s in (("10.0.0.5", [1024]), ("fd00::9", [1, 300]))),
+                       exhaustive=True, space="honest + 6 verify faults x 2 (quick) / 20 (thorough) key sets x IPv4/IPv6 peer and frame sizes", min_nontrivial=10)]
